@@ -28,7 +28,8 @@ class Env(object):
     """with Env(options, plugins, build) as env: ... ; build(env, Base, opts) defines the models."""
 
     def __init__(self, options=None, plugins=None, build=None, url='sqlite://', versioned=True,
-                 autoflush=False, bind_engine=False):
+                 autoflush=False, bind_engine=False, attach=None):
+        self.attach = attach or []
         self.options = dict(options or {})
         self.plugins = plugins or []
         self.build = build
@@ -38,6 +39,13 @@ class Env(object):
         self.bind_engine = bind_engine
 
     def __enter__(self):
+        try:
+            return self._enter()
+        except BaseException:
+            self.__exit__(None, None, None)
+            raise
+
+    def _enter(self):
         sc = continuum()
         from sqlalchemy_continuum.transaction import TransactionFactory
         self.sc = sc
@@ -69,6 +77,8 @@ class Env(object):
         self.build(self, self.Base, dict(self.opts) if self.opts else None)
         sa.orm.configure_mappers()
         self.connection = self.engine.connect()
+        for schema in self.attach:
+            self.connection.execute(sa.text("ATTACH DATABASE ':memory:' AS %s" % schema))
         self.Base.metadata.create_all(self.connection)
         self.connection.commit()
         return self
@@ -85,7 +95,7 @@ class Env(object):
             close_all_sessions()
         except Exception:
             pass
-        if self.versioned:
+        if self.versioned and hasattr(self, 'sc'):
             try:
                 self.sc.remove_versioning()
             except Exception:
@@ -95,7 +105,10 @@ class Env(object):
             self.connection.close()
         except Exception:
             pass
-        self.engine.dispose()
+        try:
+            self.engine.dispose()
+        except Exception:
+            pass
         sa.orm.clear_mappers()
         return False
 
